@@ -384,3 +384,120 @@ Proof. reflexivity. Qed.
 Example parse_number_render_hyp_sat : (int32_min <= dexp (Dec (-12345) (-3)))%Z
   /\ parse_number (render (Dec (-12345) (-3))) = Some (Dec (-12345) (-3)).
 Proof. split; [discriminate|vm_compute; reflexivity]. Qed.
+
+(* ------------------------------------------------------------------------------------------------ *)
+(* canonicity: the rendering depends on the numeric value only *)
+
+Lemma render_zero : forall e, render (Dec 0 e) = [48%N].
+Proof.
+  intros e. destruct (Z_lt_le_dec e 0) as [He|He].
+  - rewrite render_neg_exp by exact He. cbn [mant dexp]. unfold split_frac.
+    change (digits (Z.abs_N 0)) with [48%N]. cbn [length].
+    assert (E : (Z.to_nat (- e) <? 1)%nat = false) by (apply Nat.ltb_ge; lia). rewrite E.
+    change [48%N] with (repeat 48%N 1) at 2. rewrite <- repeat_app, trim_zeros_zeros. reflexivity.
+  - unfold render. cbn [mant dexp]. assert (E : (0 <=? e)%Z = true) by (apply Z.leb_le; exact He). rewrite E.
+    rewrite Z.mul_0_l. reflexivity.
+Qed.
+
+Lemma abs_N_tenfold : forall m, Z.abs_N (m * 10) = (10 * Z.abs_N m)%N.
+Proof. intros m. rewrite Zabs2N.inj_mul. change (Z.abs_N 10) with 10%N. lia. Qed.
+
+(* one more trailing zero in the mantissa, exponent one lower: same text *)
+Lemma render_scale1 : forall m e, render (Dec (m * 10) (e - 1)) = render (Dec m e).
+Proof.
+  intros m e. destruct (Z.eq_dec m 0) as [->|Hm]; [rewrite Z.mul_0_l, !render_zero; reflexivity|].
+  assert (Hpos : (0 < Z.abs_N m)%N) by lia.
+  assert (Hsign : (m * 10 <? 0)%Z = (m <? 0)%Z).
+  { destruct (m <? 0)%Z eqn:Es; [apply Z.ltb_lt in Es; apply Z.ltb_lt; lia|apply Z.ltb_ge in Es; apply Z.ltb_ge; lia]. }
+  destruct (Z_lt_le_dec e 0) as [He|He]; [|destruct (Z.eq_dec e 0) as [->|He0]].
+  - (* both fractional *)
+    rewrite (render_neg_exp (Dec (m * 10) (e - 1))), (render_neg_exp (Dec m e)) by (cbn [dexp]; lia).
+    cbn [mant dexp]. rewrite Hsign. unfold split_frac.
+    rewrite abs_N_tenfold, digits_tenfold by exact Hpos.
+    set (str := digits (Z.abs_N m)). rewrite app_length. cbn [length].
+    replace (Z.to_nat (- (e - 1))) with (S (Z.to_nat (- e))) by lia. set (k := Z.to_nat (- e)).
+    replace (S k <? length str + 1)%nat with (k <? length str)%nat.
+    2:{ destruct (k <? length str)%nat eqn:E1; symmetry;
+        [apply Nat.ltb_lt in E1; apply Nat.ltb_lt; lia|apply Nat.ltb_ge in E1; apply Nat.ltb_ge; lia]. }
+    destruct (k <? length str)%nat eqn:E1.
+    + apply Nat.ltb_lt in E1. replace (length str + 1 - S k)%nat with (length str - k)%nat by lia.
+      rewrite firstn_app, skipn_app.
+      replace (length str - k - length str)%nat with 0%nat by lia. cbn [firstn skipn].
+      rewrite app_nil_r, trim_zeros_snoc0. reflexivity.
+    + apply Nat.ltb_ge in E1. replace (S k - (length str + 1))%nat with (k - length str)%nat by lia.
+      rewrite (app_assoc (repeat 48%N (k - length str)) str [48%N]), trim_zeros_snoc0. reflexivity.
+  - (* e = 0: "ddd0" with exponent -1 against "ddd" *)
+    rewrite (render_neg_exp (Dec (m * 10) (0 - 1))) by (cbn [dexp]; lia).
+    cbn [mant dexp]. rewrite Hsign. unfold split_frac.
+    rewrite abs_N_tenfold, digits_tenfold by exact Hpos.
+    set (str := digits (Z.abs_N m)). rewrite app_length. cbn [length].
+    change (Z.to_nat (- (0 - 1))) with 1%nat.
+    assert (Hlen : (0 < length str)%nat).
+    { pose proof (digits_nonempty (Z.abs_N m)) as Hn. fold str in Hn. destruct str; [contradiction|cbn; lia]. }
+    assert (E1 : (1 <? length str + 1)%nat = true) by (apply Nat.ltb_lt; lia). rewrite E1.
+    replace (length str + 1 - 1)%nat with (length str) by lia.
+    rewrite firstn_app, skipn_app, Nat.sub_diag, firstn_all, skipn_all. cbn [firstn skipn app].
+    rewrite app_nil_r. change (trim_zeros [48%N]) with (@nil N). cbn [frac_text]. rewrite app_nil_r.
+    unfold render. cbn [mant dexp]. change (0 <=? 0)%Z with true. cbv iota.
+    rewrite Z.pow_0_r, Z.mul_1_r. unfold sign_text. destruct (m <? 0)%Z; reflexivity.
+  - (* both integers *)
+    unfold render. cbn [mant dexp].
+    assert (E1 : (0 <=? e - 1)%Z = true) by (apply Z.leb_le; lia).
+    assert (E2 : (0 <=? e)%Z = true) by (apply Z.leb_le; lia). rewrite E1, E2.
+    replace (m * 10 * 10 ^ (e - 1))%Z with (m * 10 ^ e)%Z; [reflexivity|].
+    replace e with (Z.succ (e - 1)) at 1 by lia. rewrite Z.pow_succ_r by lia. lia.
+Qed.
+
+Lemma render_scale : forall j m e, render (Dec (m * 10 ^ Z.of_nat j) (e - Z.of_nat j)) = render (Dec m e).
+Proof.
+  induction j as [|j IH]; intros m e.
+  - cbn. rewrite Z.mul_1_r, Z.sub_0_r. reflexivity.
+  - rewrite Nat2Z.inj_succ, Z.pow_succ_r by lia.
+    replace (m * (10 * 10 ^ Z.of_nat j))%Z with (m * 10 ^ Z.of_nat j * 10)%Z by lia.
+    replace (e - Z.succ (Z.of_nat j))%Z with (e - Z.of_nat j - 1)%Z by lia.
+    rewrite render_scale1. apply IH.
+Qed.
+
+Lemma render_canonical_le : forall a b, dec_eq a b -> (dexp a <= dexp b)%Z -> render a = render b.
+Proof.
+  intros [ma ea] [mb eb] H Hle. pose proof (dec_eq_inv _ _ H Hle) as Hm. cbn [mant dexp] in *.
+  subst ma. replace ea with (eb - Z.of_nat (Z.to_nat (eb - ea)))%Z at 2 by lia.
+  replace (eb - ea)%Z with (Z.of_nat (Z.to_nat (eb - ea))) at 1 by lia. apply render_scale.
+Qed.
+
+(* numerically equal numbers render identically *)
+Lemma render_canonical : forall a b, dec_eq a b -> render a = render b.
+Proof.
+  intros a b H. destruct (Z_le_gt_dec (dexp a) (dexp b)) as [Hle|Hgt].
+  - apply render_canonical_le; assumption.
+  - symmetry. apply render_canonical_le; [apply dec_eq_sym; exact H|lia].
+Qed.
+
+(* identically rendered numbers are numerically equal *)
+Lemma render_injective : forall a b, render a = render b -> dec_eq a b.
+Proof.
+  intros a b H. set (yes := fun _ : Z => true).
+  destruct (parse_number_with_render yes a) as (ea & _ & a' & Ha & _ & Pa).
+  destruct (parse_number_with_render yes b) as (eb & _ & b' & Hb & _ & Pb).
+  unfold yes in Pa, Pb. rewrite H, Pb in Pa. inversion Pa; subst.
+  eapply dec_eq_trans; [apply dec_eq_sym; exact Ha|exact Hb].
+Qed.
+
+(* the "=" operator on numbers: equal iff same rendering iff numerically equal *)
+Lemma equal_num_render : forall a b, equal_num a b = true <-> render a = render b.
+Proof. intros a b. unfold equal_num. apply text_eqb_eq. Qed.
+
+Lemma render_eq_iff : forall a b, render a = render b <-> dec_eq a b.
+Proof. intros a b. split; [apply render_injective|apply render_canonical]. Qed.
+
+Lemma equal_num_spec : forall a b, equal_num a b = dec_eqb a b.
+Proof.
+  intros a b. destruct (dec_eqb a b) eqn:E.
+  - apply equal_num_render, render_canonical. exact E.
+  - destruct (equal_num a b) eqn:E'; [|reflexivity].
+    apply equal_num_render, render_injective in E'. unfold dec_eq in E'. congruence.
+Qed.
+
+Lemma equal_agrees : forall a b : dec,
+  (equal_num a b = true <-> render a = render b) /\ (render a = render b <-> dec_eq a b).
+Proof. intros a b. split; [apply equal_num_render|apply render_eq_iff]. Qed.
